@@ -666,6 +666,10 @@ Definition v_change (fl : flagmap) (c : change) : val :=
       VOpt VN (c_replaced c); VList (v_entry fl) (c_paths c);
       VList (v_entry fl) (ecmp_paths fl (c_paths c))].
 
+(* Table::rs_local_paths *)
+Definition rs_local (peer : N) (d : dest) : option entry :=
+  find (fun e => (s_role (e_src e) =? 1) && negb (from_addr peer e) && eligible e) (d_entries d).
+
 (* Table::destinations(Global, enable_filtered = true): every entry in rank
    order with its flags *)
 Definition v_dest (fl : flagmap) (nd : N * dest) : val :=
@@ -687,7 +691,13 @@ Definition v_state (t : table) (addrs ctrs : list N) : val :=
                       | None => VL [VN a]
                       end) addrs;
       VList (fun c => VN (ctr_of t c)) ctrs;
-      VB (t_bad t)].
+      VB (t_bad t);
+      (* Table::destinations(RsLocal(peer)): per peer, the best path among the
+         other route-server clients' eligible paths, prefix by prefix *)
+      VList (fun a => VL [VN a; VList (fun nd => match rs_local a (snd nd) with
+                                                 | Some e => VL [VN (fst nd); VN (s_tok (e_src e)); VN (a_tok (e_attr e))]
+                                                 | None => VL [VN (fst nd)]
+                                                 end) (t_dests t)]) addrs].
 
 Fixpoint observe (t : table) (addrs ctrs : list N) (ops : list op) : list val :=
   match ops with
